@@ -272,7 +272,14 @@ func (a *analyzer) reportEffects(r *core.Report, rule string, f *ssa.Function, a
 				continue
 			}
 		}
-		key := fmt.Sprintf("%s|param %s", core.ShortFunc(f), p.Name())
+		// keyed by position: renaming a parameter must not change the key
+		role := fmt.Sprintf("argument %d", i)
+		if i == 0 && f.Signature.Recv() != nil {
+			role = "receiver"
+		} else if f.Signature.Recv() == nil {
+			role = fmt.Sprintf("argument %d", i+1)
+		}
+		key := fmt.Sprintf("%s|%s", core.ShortFunc(f), role)
 		if allowed[p.Name()] {
 			r.OK(rule, key, a.pos(f.Pos()), "documented mutator/sink for this parameter")
 			continue
